@@ -74,6 +74,20 @@ impl BeforeRequest<u32> for B {
     }
 }
 
+thread_local! {
+    /// the environment of the run in progress, for hooks that carry no data themselves
+    static ZENV: RefCell<Option<Rc<Env>>> = const { RefCell::new(None) };
+}
+/// A zero-sized before-hook (like a unit struct or a closure that captures nothing): before-part I.
+#[derive(Clone, Copy)]
+struct ZB<const I: usize>;
+impl<const I: usize> BeforeRequest<u32> for ZB<I> {
+    async fn before(&mut self, ctx: &mut context::Context, req: &u32) -> Result<(), ServerError> {
+        let env = ZENV.with(|e| e.borrow().clone()).expect("environment set");
+        B(I, env).before(ctx, req).await
+    }
+}
+
 #[derive(Clone)]
 struct A(usize, Rc<Env>);
 fn do_after(id: usize, env: &Env, ctx: &mut context::Context, resp: &mut Result<u32, ServerError>) {
@@ -338,11 +352,13 @@ pub fn run_c19(tier: Tier) -> i32 {
                               // twice: built by generic code (receiver type `S: Serve`), and - for
                               // the nestings written out in hooks_concrete.rs - chained directly on
                               // the concrete types
-                              for concrete_types in [false, true] {
+                              for variant in 0u8..4 {
+                                let concrete_types = variant > 0;
                                 env.log.borrow_mut().clear();
+                                ZENV.with(|e| *e.borrow_mut() = Some(env.clone()));
                                 let out = std::panic::catch_unwind(std::panic::AssertUnwindSafe(|| {
                                     if concrete_types {
-                                        concrete(kinds, &env)
+                                        concrete(kinds, &env, variant - 1)
                                     } else {
                                         Some(wrap3(Handler(env.clone()), kinds, 0, 0, &env))
                                     }
@@ -356,10 +372,10 @@ pub fn run_c19(tier: Tier) -> i32 {
                                 {
                                     use std::hash::{Hash, Hasher};
                                     let mut h = std::collections::hash_map::DefaultHasher::new();
-                                    (kinds, &bs, &as_, handler_ok, concrete_types).hash(&mut h);
+                                    (kinds, &bs, &as_, handler_ok, variant).hash(&mut h);
                                     distinct.insert(h.finish());
                                 }
-                                let label = format!("nesting (innermost first) {kinds:?}{} before-parts {bs:?} after-parts {as_:?} handler_ok={handler_ok}", if concrete_types { " chained on the concrete types" } else { "" });
+                                let label = format!("nesting (innermost first) {kinds:?}{} before-parts {bs:?} after-parts {as_:?} handler_ok={handler_ok}", match variant { 0 => "", 1 => " chained on the concrete types", 2 => " chained on the concrete types, list hooks after the first zero-sized", _ => " chained on the concrete types, before-hooks zero-sized" });
                                 let got = match out {
                                     Err(_) => {
                                         failures.push(("C19-panic".to_string(), format!("{label}: {}", crate::mock::take_panic())));
@@ -415,7 +431,7 @@ pub fn run_c19(tier: Tier) -> i32 {
         distinct.len() as u64,
         &failures,
         json!({"nestings": nestings.len(), "nestings_skipped_over_part_cap": skipped, "part_cap": cap_parts}),
-        "every nesting of <=3 wrappers from {before(h), after(h), before_and_after(h), before().then(h1)[.then(h2)[.then(h3)]].serving(s)} around a recording handler (259 type instantiations built by generic code, and 106 of them - all nestings of depth <= 2, depth 3 over four wrapper kinds - also chained directly on the concrete types, so that method resolution is the one application code gets; no dynamic dispatch over tarpc types); for each nesting every assignment of behaviours: each before-part in {ok, ok+mutate ctx, fail}, each after-part in {keep, Ok->Err, Err->Ok}, handler in {Ok, Err}; nestings whose parts exceed the cap are listed as skipped; exact equality of the invocation log (who ran, order, context marker seen, result seen) and of the final Result with a reference interpreter",
+        "every nesting of <=3 wrappers from {before(h), after(h), before_and_after(h), before().then(h1)[.then(h2)[.then(h3)]].serving(s)} around a recording handler (259 type instantiations built by generic code, and 106 of them - all nestings of depth <= 2, depth 3 over four wrapper kinds - also chained directly on the concrete types, so that method resolution is the one application code gets, plus variants of those in which the before-hooks (all of them, or all but the first of a list) are zero-sized values; no dynamic dispatch over tarpc types); for each nesting every assignment of behaviours: each before-part in {ok, ok+mutate ctx, fail}, each after-part in {keep, Ok->Err, Err->Ok}, handler in {Ok, Err}; nestings whose parts exceed the cap are listed as skipped; exact equality of the invocation log (who ran, order, context marker seen, result seen) and of the final Result with a reference interpreter",
         samples.into_inner().unwrap().into_iter().map(|c| json!({"case": c})).collect(),
     )
 }
